@@ -1061,7 +1061,12 @@ static void scenario(const char *params)
         setenv("XCM_TLS_CERT", g_certs, 1);
 
     struct env_cfg cfg = { .io_menu = (unsigned)param_int(params, "menu", ENV_IO_DEFAULT),
-                           .sleep_monitor = 1, .only_task = -1 };
+                           .sleep_monitor = 1, .only_task = -1,
+                           /* bp=1: back-pressure with flow-control semantics (loop style only: both ends keep
+                              reading while they wait to write, so a correct library cannot deadlock) */
+                           .stall_until_read = (int)param_int(params, "bp", 0) };
+    if (cfg.stall_until_read && (strcmp(g_style, "loop") || A.blocking || B.blocking))
+        mc_fail("internal/bp-needs-loop-style", "bp=1 is only sound with style=loop on two non-blocking endpoints");
     env_init(&cfg);
     env_register_events();
     det_rand_install(1);
